@@ -12,14 +12,14 @@ CLAIM = ("Spec/Warn.lean states the three warning sets over the reference graph 
          "'any word' in the grammar's meaning for the target shell, except `_`; unused = plain definitions whose name occurs in no "
          "statement; unused specialisation = definitions for the target shell whose name occurs in no statement); Props/C15.lean proves "
          "their characterisations (unused_iff, unused_spec_iff, underscore_never_reported, reported_once) for every grammar, and "
-         "warn_unused_eq: for every grammar and shell the model of check.rs accepts, the names in its `unused` map are exactly the spec set "
+         "warn_unused_eq / warn_unused_spec_eq: for every grammar and shell the model of check.rs accepts, the names in its `unused` map and in its `unusedSpecs` are exactly the spec sets "
          "(proved through the model's distribute / specialise / resolution-order / resolve passes, Proofs/Warn.lean). On every run, "
          "for generated reference structures (names used directly, inside words, only through used / only through unused definitions, "
          "specialised for the target / other shells / both, PATH, DIRECTORY, `_`) x 4 shells: the `warning:` lines of the real binary, read "
          "back at their printed location in the source, must be exactly the spec sets, once each; exit status 0; the script must be "
          "byte-identical to the one compiled with every warned-about definition blanked out; and the model's three maps "
          "(Check.validate) must equal the library's (names and spans).")
-NOTE = ("warn_unused_eq is proved; the same equality for the undefined and unused-specialisation sets is open and is checked per grammar. Trusted: vh, "
+NOTE = ("warn_unused_eq and warn_unused_spec_eq are proved; the same equality for the undefined names (it needs the dependency-ordered expansion) is open and is checked per grammar. Trusted: vh, "
         "the regex reading `path:line:col:warning: kind` lines, the generator.")
 TECHNIQUE = "spec sets in Lean (with characterisation theorems) against the warning lines of the real binary + exact model/library correspondence"
 DESIGN_REF = "§3 C15"
